@@ -7,6 +7,8 @@ import (
 	"sync"
 	"time"
 
+	"github.com/gotd/log"
+
 	"github.com/gotd/td/telegram/updates"
 	"github.com/gotd/td/tg"
 	"github.com/gotd/td/tgerr"
@@ -110,6 +112,24 @@ func (a api) UpdatesGetChannelDifference(_ context.Context, r *tg.UpdatesGetChan
 	return nil, errTransient
 }
 
+// --- log.Logger: the one log line that says the main loop has forgotten an inaccessible channel
+// (it is written right after the channel left the table; nothing else is read from the log)
+
+type logger struct{ e *Env }
+
+func (logger) Enabled(context.Context, log.Level) bool { return true }
+
+func (l logger) Log(_ context.Context, _ log.Level, msg string, attrs ...log.Attr) {
+	if msg != "Removed inaccessible channel from tracking" {
+		return
+	}
+	for _, a := range attrs {
+		if a.Key == "channel_id" {
+			l.e.W.forgotten(a.Value.Int64())
+		}
+	}
+}
+
 // --- telegram.UpdateHandler
 
 type handler struct{ e *Env }
@@ -177,6 +197,7 @@ func Start(w *World, snap Snapshot) *Env {
 		Storage:          e.Store,
 		AccessHasher:     hasher{w},
 		UserAccessHasher: userHasher{w},
+		Logger:           logger{e},
 	})
 	ctx, cancel := context.WithCancel(context.Background())
 	e.cancel = cancel
@@ -382,6 +403,11 @@ func (e *Env) chanBarrier(c int64) bool {
 func (e *Env) Settle() {
 	for iter := 0; iter < 100 && e.Err == ""; iter++ {
 		before := e.progress()
+		// a worker that was told CHANNEL_PRIVATE is on its way out: wait until the main loop has
+		// forgotten the channel (else the next update of the channel would still find the old worker)
+		for deadline := time.Now().Add(10 * time.Second); e.W.removalsOutstanding() > 0 && time.Now().Before(deadline); {
+			time.Sleep(20 * time.Microsecond)
+		}
 		e.mainBarrier()
 		// the channels that have a worker: a barrier pushed now is handled after handleChannel has
 		// registered the worker (it asked the storage before), never before
@@ -396,7 +422,7 @@ func (e *Env) Settle() {
 		for _, c := range chans {
 			e.chanBarrier(c)
 		}
-		if e.progress() == before && ext == 0 && internal == 0 && aff == 0 && len(e.W.StartedChannels()) == len(chans) {
+		if e.progress() == before && ext == 0 && internal == 0 && aff == 0 && len(e.W.StartedChannels()) == len(chans) && e.W.removalsOutstanding() == 0 {
 			// quiescent: nobody writes the manager's channel table now
 			e.dones = updates.VerifC02ChannelDones(e.M)
 			return
